@@ -1040,6 +1040,12 @@ class Exec:
         r = st.get(cell, path)
         if isinstance(r, Ref):
             return s.iter_next(st, r.cell, r.path, where)
+        if isinstance(r, dict) and 'kind' not in r:      # a `Range<usize>` aggregate reached through `&mut` (as_iter only sees by-value arguments)
+            r2 = s.as_iter(r)
+            if r2 is r:
+                raise NotImplementedError('next() of a value that is not a known iterator: %r' % (sorted(map(str, r.keys())),))
+            st.set(cell, path, r2)
+            r = st.get(cell, path)
         k = r['kind']
         if k == 'range':
             out = []
@@ -1650,7 +1656,7 @@ class Exec:
                             out.append((s2, 'unwind', None))
         return out
 
-    def try_for_each(s, st, itv, clo, where):
+    def try_for_each(s, st, itv, clo, where, okv='Ok'):
         """Iterator::try_for_each with a closure returning Result / Option: stops at the first Err / None (bounded unrolling)"""
         ic, cc = st.new_cell(itv), st.new_cell(clo)
         out, work = [], [(st, 0)]
@@ -1658,7 +1664,7 @@ class Exec:
             st, k = work.pop()
             for (s1, kk, v) in s.iter_next(st, ic, (), where):
                 if kk == 'none':
-                    out.append((s1, 'ret', Enum('Ok', {0: UNIT})))
+                    out.append((s1, 'ret', Enum(okv, {0: UNIT})))
                 elif kk == 'unwind':
                     out.append((s1, 'unwind', None))
                 else:
@@ -1833,7 +1839,7 @@ class Exec:
                 return R(p)
             if op == 'drop_in_place':
                 return s.drop_slice(st, Slice(p.arr, p.idx, p.idx + 1), where)
-        mr = re.match(r'^(?:core::)?(?:mem::)?(replace|take|swap)::<usize>$', c)
+        mr = re.match(r'^(?:core::)?(?:mem::)?(replace|take|swap)::<(usize|bool)>$', c)
         if mr and isinstance(args[0], Ref):
             old = st.get(args[0].cell, args[0].path)
             if mr.group(1) == 'swap':
@@ -1841,7 +1847,7 @@ class Exec:
                 st.set(args[0].cell, args[0].path, other)
                 st.set(args[1].cell, args[1].path, old)
                 return R(UNIT)
-            st.set(args[0].cell, args[0].path, args[1] if mr.group(1) == 'replace' else bv(0))
+            st.set(args[0].cell, args[0].path, args[1] if mr.group(1) == 'replace' else (bv(0) if mr.group(2) == 'usize' else z3.BoolVal(False)))
             return R(old)
         if re.match(r'^<ManuallyDrop<GenericArray<T, N>> as Clone>::clone$', c):      # core: ManuallyDrop<T: Clone>::clone = ManuallyDrop::new((**self).clone())
             a = args[0]
@@ -1930,6 +1936,16 @@ class Exec:
                 else:
                     outs.append((s1, 'ret', Enum('Ok' if op == 'map' else 'Err', {0: v})))
             return outs
+        mres = re.match(r'^Result::<.*>::(unwrap_or_else|unwrap_or|map_or_else)(::<.*)?$', c)
+        if mres and isinstance(args[0], Enum) and args[0].variant in ('Ok', 'Err'):
+            op, r0 = mres.group(1), args[0]
+            if op == 'unwrap_or':
+                return R(r0.fields[0] if r0.variant == 'Ok' else args[1])
+            if op == 'unwrap_or_else':
+                if r0.variant == 'Ok':
+                    return R(r0.fields[0])
+                return s.call_closure2(st, st.new_cell(args[1]), [r0.fields[0]], where)
+            return s.call_closure2(st, st.new_cell(args[2] if r0.variant == 'Ok' else args[1]), [r0.fields[0]], where)      # map_or_else(default, f)
         mo = re.match(r'^Option::<.*>::(map|is_some_and|is_none_or|filter|map_or|and_then|unwrap_or_else|ok_or|unwrap_or)(::<.*)?$', c)
         if mo and isinstance(args[0], Enum) and not (mo.group(1) == 'unwrap_or' and 'usize' in c):
             op, o = mo.group(1), args[0]
@@ -2389,7 +2405,9 @@ class Exec:
             if not (isinstance(tgt, dict) and 'kind' in tgt):
                 args = [{'kind': 'crateit', 'ty': mci.group(1), 'it': a0}] + list(args[1:])
         if re.search(r' as Iterator>::try_for_each::<', c):
-            return s.try_for_each(st, args[0], args[1], where)
+            tail = c[c.index('try_for_each::<'):]
+            okv = 'Some' if re.search(r'Option<\(\)>>$', tail) else 'Continue' if re.search(r'ControlFlow<[^<>]*>>$', tail) else 'Ok'
+            return s.try_for_each(st, args[0], args[1], where, okv)
         if re.search(r' as Iterator>::(cloned|copied)(::<.*>)?$', c):
             return R({'kind': 'cloned', 'inner': args[0]})
         if re.search(r' as Iterator>::by_ref$', c):
